@@ -334,12 +334,21 @@ fn build(u: &mut Choices) -> Case {
         }
         "regex_replace" => {
             // anchored pattern that matches the whole string (the documentation's example shape)
-            members = vec![Some(V::s("arn:aws:svc:region:123")), None, Some(V::Int(3))];
+            // one to three matching strings among unresolved and non-string members
+            let pool = [("arn:aws:svc:region:123", "aws/123/region-svc"), ("arn:gov:s3:east:7", "gov/7/east-s3"), ("arn:cn:ec2:north:42", "cn/42/north-ec2")];
+            let n = u.range(1, 3);
+            members = vec![];
+            let mut want = vec![];
+            for k in 0..n {
+                let (a, b) = pool[(k + u.below(3)) % 3];
+                members.push(Some(V::s(a)));
+                want.push(V::s(b));
+                if u.chance(1, 3) {
+                    members.push(if u.chance(1, 2) { None } else { Some(V::Int(3)) });
+                }
+            }
             arg = "items[*].s".into();
-            (
-                format!("regex_replace({}, '^arn:(\\w+):(\\w+):(\\w+):(\\d+)$', '${{1}}/${{4}}/${{3}}-${{2}}')", arg),
-                Exp::Values(vec![V::s("aws/123/region-svc")]),
-            )
+            (format!("regex_replace({}, '^arn:(\\w+):(\\w+):(\\w+):(\\d+)$', '${{1}}/${{4}}/${{3}}-${{2}}')", arg), Exp::Values(want))
         }
         "to_upper" if u.chance(1, 4) => {
             // nested call
